@@ -233,3 +233,52 @@ pub proof fn lemma_tail_aligned(cs: Seq<ClassInProgress>, strs: Seq<u8>)
     assert(l8 == l6 + pb.len() + pad_len(pb.len() as int));
     lemma_pad_arith(l6, pb.len() as int, (l6 + pb.len()) % 8);
 }
+
+// ---- C11 / C14 fragment: the length of what the writer emits is the length implied by its own header ----
+// (same formula as contracts/watto_model.rs::implied_len for a buffer at an 8-aligned address)
+pub open spec fn layout_len(h: Header) -> int {
+    let e1 = 24 + pad_len(24);
+    let e2 = e1 + 28 * h.num_classes as int; let e2p = e2 + pad_len(e2);
+    let e3 = e2p + 36 * h.num_members as int; let e3p = e3 + pad_len(e3);
+    let e4 = e3p + 36 * h.num_members_by_params as int; let e4p = e4 + pad_len(e4);
+    e4p + h.string_bytes as int
+}
+pub proof fn lemma_pad_len_shift(a: int, b: int)
+    requires a >= 0, b >= 0, a % 8 == 0,
+    ensures pad_len(a + b) == pad_len(b),
+{}
+pub proof fn lemma_canonical_len(cs: Seq<ClassInProgress>, strs: Seq<u8>)
+    requires
+        forall|i: int| 0 <= i < cs.len() ==> wf_cip(#[trigger] cs[i]),
+        // representable domain: nothing is truncated by the `as u32` casts of the header
+        cs.len() <= u32::MAX, sum_members_len(cs) <= u32::MAX, sum_by_params_len(cs) <= u32::MAX, strs.len() <= u32::MAX,
+    ensures
+        /* the header's counts are the numbers of records written */
+        /*@L:header_counts_equal_records_written:C09,C10*/ header_of(cs, strs).num_classes as int == cs.len(),
+        header_of(cs, strs).num_members as int == all_members(cs, cs.len() as int).len(),
+        header_of(cs, strs).num_members_by_params as int == all_by_params(cs, cs.len() as int).len(),
+        header_of(cs, strs).string_bytes as int == strs.len(),
+        /* and the file is exactly as long as its header implies */
+        /*@L:file_length_equals_header_implied_length:C09,C11*/ canonical(cs, strs).len() == layout_len(header_of(cs, strs)),
+{
+    let nn = cs.len() as int;
+    let h = header_of(cs, strs);
+    axiom_record_sizes();
+    lemma_classes_len(cs, nn);
+    lemma_header_counts(cs, nn);
+    assert(cs.take(nn) =~= cs);
+    let hb = hdr_bytes(h); let cb = classes_bytes(cs, nn);
+    let mb = members_bytes(all_members(cs, nn)); let pb = members_bytes(all_by_params(cs, nn));
+    let e1 = 24 + pad_len(24);
+    let e2 = e1 + 28 * nn; let e2p = e2 + pad_len(e2);
+    let e3 = e2p + mb.len(); let e3p = e3 + pad_len(e3);
+    let e4 = e3p + pb.len(); let e4p = e4 + pad_len(e4);
+    assert(padded(hb).len() == e1);
+    lemma_pad_arith(0, 24, 0);
+    lemma_pad_len_shift(e1, cb.len() as int);
+    assert(padded(cb).len() == cb.len() + pad_len(e2));
+    lemma_pad_arith(e1, cb.len() as int, (e1 + cb.len()) % 8);
+    lemma_pad_len_shift(e2p, mb.len() as int);
+    lemma_pad_arith(e2p, mb.len() as int, (e2p + mb.len()) % 8);
+    lemma_pad_len_shift(e3p, pb.len() as int);
+}
